@@ -38,6 +38,7 @@ type Obligation struct {
 	RefuteSolver string
 	Disagree     bool
 	lemmaIdx int
+	Preset   bool // decided without a solver (structural obligations)
 }
 
 type Verifier struct {
@@ -59,6 +60,9 @@ type Verifier struct {
 	repoDir      string
 	axioms       []axiomText
 	rtypeIDs     map[string]int
+	heapIsRef    map[string]string // heap variable -> "field" / "mapval:<keysort>" when its values are references
+	constGlobals map[string]Term // package-level variables that are initialised with a constant and never assigned again
+	lazyGlobal   map[string]string // initial heap symbol -> closedness axiom (included when the symbol is mentioned)
 	safetyChecks bool
 }
 
@@ -83,7 +87,7 @@ func loadVerifier(repo string) (*Verifier, error) {
 	prog, spkgs := ssautil.AllPackages(pkgs, ssa.GlobalDebug)
 	prog.Build()
 	v := &Verifier{prog: prog, pkgs: pkgs, spkgs: map[string]*ssa.Package{}, decls: newDecls(), heapSorts: map[string]string{},
-		fnByKey: map[string]*ssa.Function{}, funcsDone: map[string]bool{}, repoDir: repo, rtypeIDs: map[string]int{}}
+		fnByKey: map[string]*ssa.Function{}, funcsDone: map[string]bool{}, repoDir: repo, rtypeIDs: map[string]int{}, heapIsRef: map[string]string{}, lazyGlobal: map[string]string{}, constGlobals: map[string]Term{}}
 	for i, p := range pkgs {
 		if spkgs[i] != nil {
 			v.spkgs[p.PkgPath] = spkgs[i]
@@ -109,6 +113,7 @@ func loadVerifier(repo string) (*Verifier, error) {
 		}
 		v.fnByKey[v.fnKey(fn)] = fn
 	}
+	v.findConstGlobals()
 	// contracts
 	v.cs = newContractSet()
 	for _, p := range pkgs {
@@ -241,4 +246,57 @@ func (v *Verifier) pkgByPath(path string) *types.Package {
 		}
 	}
 	return nil
+}
+
+// findConstGlobals: a package-level variable of a repo package that is stored to exactly once, in the package
+// initialiser, with a constant, is treated as that constant (structural fact, re-established on every run).
+func (v *Verifier) findConstGlobals() {
+	stores := map[*ssa.Global][]*ssa.Store{}
+	escaped := map[*ssa.Global]bool{}
+	for fn := range ssautil.AllFunctions(v.prog) {
+		p := fnPkg(fn)
+		if p == nil || !v.isRepoPkg(p.Pkg.Path()) {
+			continue
+		}
+		for _, b := range fn.Blocks {
+			for _, in := range b.Instrs {
+				if st, ok := in.(*ssa.Store); ok {
+					if g, ok := st.Addr.(*ssa.Global); ok {
+						stores[g] = append(stores[g], st)
+					}
+				}
+				// address used other than as load/store target
+				for _, op := range in.Operands(nil) {
+					if g, ok := (*op).(*ssa.Global); ok {
+						switch u := in.(type) {
+						case *ssa.Store:
+							if u.Addr != g {
+								escaped[g] = true
+							}
+						case *ssa.UnOp, *ssa.DebugRef:
+						default:
+							escaped[g] = true
+						}
+					}
+				}
+			}
+		}
+	}
+	for g, ss := range stores {
+		if escaped[g] || len(ss) != 1 || g.Pkg == nil || !v.isRepoPkg(g.Pkg.Pkg.Path()) {
+			continue
+		}
+		if ss[0].Parent().Name() != "init" {
+			continue
+		}
+		c, ok := ss[0].Val.(*ssa.Const)
+		if !ok || c.Value == nil {
+			continue
+		}
+		x := &fnExec{v: v}
+		func() {
+			defer func() { recover() }()
+			v.constGlobals["G_"+g.Pkg.Pkg.Name()+"_"+g.Name()] = x.constVal(c)
+		}()
+	}
 }
